@@ -23,10 +23,13 @@ Record rquirks := {
   q_chain_start_line    : bool;  (* a method call is reported at the line where its receiver chain starts *)
   q_for_header_in_loop  : bool;  (* the iterator expression of `for` counts as inside the loop *)
   q_clone_first_pattern : bool;  (* a clone is classified before the detect_* switches are consulted *)
+  q_blocking_msg_line   : bool;  (* a blocking-async message quotes the source line; the documentation's examples
+                                    quote the blocking API path (fs::read_to_string) *)
+  q_wrapper_method_form : bool;  (* handle.spawn_blocking(|| ..) (method call) is not recognised as a wrapper *)
   q_net_bare_type       : bool;  (* call-path patterns exactly as in the source (true) / plus the NetType::method form
                                     (false).  The source lacks that form (e1a1fd7 added it, a07d81a removed it again). *)
 }.
-Definition ideal : rquirks := Build_rquirks false false false false false false false false.
+Definition ideal : rquirks := Build_rquirks false false false false false false false false false false.
 
 (* ------------------------------------------------------------------ the parent chain *)
 Record frame := {
@@ -34,10 +37,11 @@ Record frame := {
   f_pre    : list sib;             (* preceding siblings, nearest first (items only) *)
   f_async  : bool;                 (* function_modifiers child with an `async` token *)
   f_callee : option (list string); (* call_expression: segments of its identifier / scoped_identifier child *)
+  f_mname  : string;               (* call_expression whose function is a field_expression: the method name *)
   f_after  : list string;          (* block: identifier tokens of the children after the one being visited *)
 }.
 Definition fr (ty : string) : frame :=
-  {| f_type := ty; f_pre := []; f_async := false; f_callee := None; f_after := [] |}.
+  {| f_type := ty; f_pre := []; f_async := false; f_callee := None; f_mname := ""; f_after := [] |}.
 
 (* node types of tree-sitter-rust (parser oracle) *)
 Definition node_type (k : kind) : string :=
@@ -58,6 +62,7 @@ Definition own_frame (k : kind) : frame :=
      f_pre := match k with KMod pre | KFn pre _ _ => rev pre | _ => [] end;
      f_async := match k with KFn _ a _ => a | _ => false end;
      f_callee := match k with KCall _ _ path => Some path | _ => None end;
+     f_mname := match k with KMethod _ _ _ name => name | _ => "" end;
      f_after := [] |}.
 
 Definition after_of (rest : list node) : list string := flat_map (idents false) rest.
@@ -66,14 +71,14 @@ Definition after_of (rest : list node) : list string := flat_map (idents false) 
 Definition push_m (q : rquirks) (anc : list frame) (k : kind) (i : nat) (rest : list node) : option (list frame) :=
   match k with
   | KMacro _ => if q_macro_opaque q then None else Some (own_frame k :: anc)
-  | KBlock => Some ({| f_type := block_type; f_pre := []; f_async := false; f_callee := None; f_after := after_of rest |} :: anc)
+  | KBlock => Some ({| f_type := block_type; f_pre := []; f_async := false; f_callee := None; f_mname := ""; f_after := after_of rest |} :: anc)
   | _ =>
     let own := match k with
                | KLoop LFor _ => if (i <? 1) && negb (q_for_header_in_loop q) then fr for_value_type else own_frame k
                | _ => own_frame k
                end in
     if stmt_pos k i
-    then Some ({| f_type := block_type; f_pre := []; f_async := false; f_callee := None; f_after := after_of rest |} :: own :: anc)
+    then Some ({| f_type := block_type; f_pre := []; f_async := false; f_callee := None; f_mname := ""; f_after := after_of rest |} :: own :: anc)
     else Some (own :: anc)
   end.
 
@@ -102,7 +107,7 @@ Fixpoint sib_walk (run : list string) (ty : string) (hit : string -> bool) (pre 
 Definition is_test_context (q : rquirks) (f : frame) : bool :=
   if String.eqb (f_type f) ctx_fn_type
   then sib_walk (run_types q test_attr_run_types) test_attr_sibling_type
-                (attr_hit test_attr_needle attr_is_test_fn (q_test_attr_substring q)) (f_pre f)
+                (attr_hit test_attr_needle attr_marks_test_fn (q_test_attr_substring q)) (f_pre f)
   else if String.eqb (f_type f) ctx_mod_type
   then sib_walk (run_types q cfg_attr_run_types) cfg_attr_sibling_type
                 (attr_hit cfg_attr_needle attr_is_cfg_test (q_cfg_test_literal q)) (f_pre f)
@@ -134,15 +139,19 @@ Definition skipped (rules : list (list skip_atom)) tbl o in_test method poff : b
 (* _get_method_name: the field_identifier of the first field_expression child *)
 Definition method_name (k : kind) : string := match k with KMethod _ _ _ name => name | _ => "" end.
 
-Definition report_line (q : rquirks) (off sl ml : nat) : nat := (if q_chain_start_line q then sl else ml) + off.
+Definition report_row (q : rquirks) (sl ml : nat) : nat := if q_chain_start_line q then sl else ml.
+Definition report_line (q : rquirks) (off sl ml : nat) : nat := report_row q sl ml + off.
+(* get_line_context(code, row): the stripped source line; the message is f"<prefix>{context}" *)
+Definition context_of (ls : srclines) (row : nat) : string := strip (line_at ls row).
 
-Definition emit_unwrap (q : rquirks) (o : options) (anc : list frame) (k : kind) (cs : list node) : list rep :=
+Definition emit_unwrap (q : rquirks) (ls : srclines) (o : options) (anc : list frame) (k : kind) (cs : list node) : list rep :=
   match k with
   | KMethod sl sc ml name =>
     if String.eqb (node_type k) unwrap_call_type && smem name unwrap_methods then
       if skipped unwrap_skip_rules unwrap_cfg o (inside_test q anc) name false then []
       else [(if String.eqb name unwrap_builder_method then unwrap_rule_then else unwrap_rule_else,
-             report_line q unwrap_line_offset sl ml, sc + unwrap_col_offset)]
+             report_line q unwrap_line_offset sl ml, sc + unwrap_col_offset,
+             ((if String.eqb name unwrap_builder_method then unwrap_msg_then else unwrap_msg_else) ++ context_of ls (report_row q sl ml))%string)]
     else []
   | _ => []
   end.
@@ -205,7 +214,7 @@ Fixpoint classify_clone (q : rquirks) (o : options) (anc : list frame) (cs : lis
 Definition rule_of (rules : list (string * string)) (default : string) (pattern : string) : string :=
   match assoc pattern rules with Some r => r | None => default end.
 
-Definition emit_clone (q : rquirks) (o : options) (anc : list frame) (k : kind) (cs : list node) : list rep :=
+Definition emit_clone (q : rquirks) (ls : srclines) (o : options) (anc : list frame) (k : kind) (cs : list node) : list rep :=
   match k with
   | KMethod sl sc ml name =>
     if String.eqb (node_type k) clone_call_type && String.eqb name clone_method then
@@ -213,7 +222,8 @@ Definition emit_clone (q : rquirks) (o : options) (anc : list frame) (k : kind) 
       | None => []
       | Some pattern =>
         if skipped clone_skip_rules clone_cfg o (inside_test q anc) name (pattern_off clone_pattern_keys clone_cfg o pattern) then []
-        else [(rule_of clone_pattern_rules clone_default_rule pattern, report_line q clone_line_offset sl ml, sc + clone_col_offset)]
+        else [(rule_of clone_pattern_rules clone_default_rule pattern, report_line q clone_line_offset sl ml, sc + clone_col_offset,
+               (rule_of clone_pattern_msgs clone_default_msg pattern ++ context_of ls (report_row q sl ml))%string)]
       end
     else []
   | _ => []
@@ -223,15 +233,16 @@ Definition emit_clone (q : rquirks) (o : options) (anc : list frame) (k : kind) 
 Definition in_async_context (anc : list frame) : bool :=
   existsb (fun f => String.eqb (f_type f) async_fn_type && f_async f) anc.
 
-(* _is_wrapper_call: an identifier child in the table, or a scoped_identifier child whose last segment is *)
-Definition is_wrapper_call (f : frame) : bool :=
+(* _is_wrapper_call: an identifier child in the table, or a scoped_identifier child whose last segment is; the
+   children of a method call are a field_expression and the arguments, so the code never takes it for a wrapper *)
+Definition is_wrapper_call (q : rquirks) (f : frame) : bool :=
   String.eqb (f_type f) wrapper_call_type &&
   match f_callee f with
   | Some [x] => smem x async_wrapper_functions
   | Some path => smem (last path "") async_wrapper_functions
-  | None => false
+  | None => negb (q_wrapper_method_form q) && smem (f_mname f) async_wrapper_functions
   end.
-Definition inside_wrapper (anc : list frame) : bool := existsb is_wrapper_call anc.
+Definition inside_wrapper (q : rquirks) (anc : list frame) : bool := existsb (is_wrapper_call q) anc.
 
 (* the documentation's example flags TcpStream::connect(..): the corrected table has the bare-type pattern *)
 Definition blocking_classes_of (q : rquirks) : list (string * list path_pat) :=
@@ -240,7 +251,9 @@ Definition blocking_classes_of (q : rquirks) : list (string * list path_pat) :=
                      then (fst c, snd c ++ [{| pp_min := 2; pp_tests := [(0, PIn blocking_net_types)] |}]) else c)
            blocking_classes.
 
-Definition emit_blocking (q : rquirks) (o : options) (anc : list frame) (k : kind) (cs : list node) : list rep :=
+Definition path_text (path : list string) : string := String.concat "::" path.
+
+Definition emit_blocking (q : rquirks) (ls : srclines) (o : options) (anc : list frame) (k : kind) (cs : list node) : list rep :=
   match k with
   | KCall sl sc path =>
     if String.eqb (node_type k) blocking_call_type && in_async_context anc then
@@ -249,21 +262,23 @@ Definition emit_blocking (q : rquirks) (o : options) (anc : list frame) (k : kin
       match classify_path (blocking_classes_of q) path with
       | None => []
       | Some pattern =>
-        if inside_wrapper anc then []
+        if inside_wrapper q anc then []
         else if skipped blocking_skip_rules blocking_cfg o (inside_test q anc) "" (pattern_off blocking_pattern_keys blocking_cfg o pattern) then []
-        else [(rule_of blocking_pattern_rules blocking_default_rule pattern, sl + blocking_line_offset, sc + blocking_col_offset)]
+        else [(rule_of blocking_pattern_rules blocking_default_rule pattern, sl + blocking_line_offset, sc + blocking_col_offset,
+               (rule_of blocking_pattern_msgs blocking_default_msg pattern
+                ++ (if q_blocking_msg_line q then context_of ls sl else path_text path))%string)]
       end
     else []
   | _ => []
   end.
 
 (* ------------------------------------------------------------------ the three commands *)
-Definition unwrap_report (q : rquirks) (c : config) (file : list node) : list rep :=
-  walk_file (push_m q) (emit_unwrap q (c_unwrap c)) [] file.
-Definition clone_report (q : rquirks) (c : config) (file : list node) : list rep :=
-  walk_file (push_m q) (emit_clone q (c_clone c)) [] file.
-Definition blocking_report (q : rquirks) (c : config) (file : list node) : list rep :=
-  walk_file (push_m q) (emit_blocking q (c_blocking c)) [] file.
+Definition unwrap_report (q : rquirks) (ls : srclines) (c : config) (file : list node) : list rep :=
+  walk_file (push_m q) (emit_unwrap q ls (c_unwrap c)) [] file.
+Definition clone_report (q : rquirks) (ls : srclines) (c : config) (file : list node) : list rep :=
+  walk_file (push_m q) (emit_clone q ls (c_clone c)) [] file.
+Definition blocking_report (q : rquirks) (ls : srclines) (c : config) (file : list node) : list rep :=
+  walk_file (push_m q) (emit_blocking q ls (c_blocking c)) [] file.
 
-Definition report (q : rquirks) (c : config) (file : list node) : list rep :=
-  unwrap_report q c file ++ clone_report q c file ++ blocking_report q c file.
+Definition report (q : rquirks) (ls : srclines) (c : config) (file : list node) : list rep :=
+  unwrap_report q ls c file ++ clone_report q ls c file ++ blocking_report q ls c file.
